@@ -163,6 +163,16 @@ theorem required_missing_rejected (defs : Defs) {c : Cls} {k : Text} {s : Schema
   rw [hmiss] at this
   cases this
 
+/-- **everything at once for a stand-alone class**: whatever the class definition accepts is an
+object with every required member, the right `modelType` and member values satisfying shape and
+inferred constraints — so ANY single violation of those is rejected. -/
+theorem standalone_enforced (defs : Defs) {c : Cls} {k : Text} {s : Schema}
+    (h : concreteDefinition c = .ok (k, s)) (hleaf : c.cdesc = []) (hroot : c.inh = [])
+    (hown : ∀ p ∈ c.props, p.own = true) (hnd : (c.props.map (·.name)).Nodup)
+    (hnm : ∀ p ∈ c.props, p.name ≠ modelTypeKey) (j : Json) (hbad : ¬ StandaloneOK defs c j) :
+    ¬ Valid defs s j :=
+  fun hv => hbad ((standalone_iff defs h hleaf hroot hown hnd hnm j).mp hv)
+
 /-! ### Non-vacuity -/
 
 /-- `@serialization(with_model_type=True) class Lonely: x: int; name: str  (1 ≤ len(name) ≤ 3)` -/
@@ -171,7 +181,9 @@ def lonely : Cls := ⟨ascii "Lonely", false, true, [],
    ⟨ascii "name", false, true, .prim .str (some ⟨some ⟨some 1, some 3⟩, none⟩), []⟩], []⟩
 
 example : ∃ s, concreteDefinition lonely = .ok (ascii "Lonely", s) ∧
-    lonely.cdesc = [] ∧ (lonely.props.map (·.name)).Nodup ∧ lonely.inh.any (·.withModelType) = false ∧
+    lonely.cdesc = [] ∧ lonely.inh = [] ∧ (∀ p ∈ lonely.props, p.own = true) ∧
+    (∀ p ∈ lonely.props, p.name ≠ modelTypeKey) ∧
+    (lonely.props.map (·.name)).Nodup ∧ lonely.inh.any (·.withModelType) = false ∧
     -- the SDK's document is accepted
     validates [] 6 s (.obj [(ascii "x", .int 3), (ascii "name", .str (ascii "abc")),
       (modelTypeKey, .str (ascii "Lonely"))]) = some true ∧
@@ -185,6 +197,6 @@ example : ∃ s, concreteDefinition lonely = .ok (ascii "Lonely", s) ∧
     validates [] 6 s (.obj [(ascii "x", .int 3), (ascii "name", .str (ascii "abc"))]) = some false ∧
     validates [] 6 s (.obj [(ascii "name", .str (ascii "abc")),
       (modelTypeKey, .str (ascii "Lonely"))]) = some false := by
-  refine ⟨_, rfl, rfl, by decide, by decide, ?_, ?_, ?_, ?_, ?_, ?_⟩ <;> decide
+  refine ⟨_, rfl, rfl, rfl, by decide, by decide, by decide, by decide, ?_, ?_, ?_, ?_, ?_, ?_⟩ <;> decide
 
 end AasVerif.Props.C12
